@@ -316,10 +316,11 @@ impl ClipCtx {
                             }
                         }
                     }
+                    // keep every candidate (dropping some would make the oracle reject correct pixels); merge
+                    // those closer than a quarter of a byte so that the set stays below about a thousand values
+                    next.sort_by(|a, b| a.partial_cmp(b).unwrap());
+                    next.dedup_by(|a, b| (*a - *b).abs() < 0.25 / 255.0);
                     cands = next;
-                    if cands.len() > 64 {
-                        cands.truncate(64);
-                    }
                 }
             }
             let mut bytes: Vec<u32> = Vec::new();
